@@ -125,6 +125,27 @@ def apalache_inductive():
     return res
 
 
+def tlaps_proof():
+    """extra (thorough tier): the TLAPS proof that IndInv is inductive for arbitrary Vars / BCs / Sides"""
+    import shutil
+    import subprocess
+    if not shutil.which("tlapm"):
+        return {"status": "tlapm not available"}
+    work = tlcrun.fresh("tlaps")
+    os.makedirs(work, exist_ok=True)
+    shutil.copy(os.path.join(tlcrun.SPEC, "proofs", "FVLifecycleIndProof.tla"), work)
+    try:
+        p = subprocess.run(["tlapm", "--threads", "4", "--stretch", "10", "-I", tlcrun.SPEC, "FVLifecycleIndProof.tla"], cwd=work,
+                           capture_output=True, text=True, timeout=1500)
+        out = p.stdout + p.stderr
+        m = re.search(r"All (\d+) obligations proved", out)
+        res = {"status": "proved" if m else "FAILED", "obligations": int(m.group(1)) if m else 0}
+    except subprocess.TimeoutExpired:
+        res = {"status": "timeout"}
+    shutil.rmtree(work, ignore_errors=True)
+    return res
+
+
 def run(tier, seed):
     rep = Report("C09", tier, seed)
     res, shared, trace = model_check(tier)
@@ -170,13 +191,16 @@ def run(tier, seed):
     report_failures(rep, judge, ("C09_",))
     tr = traces(rep, tier, seed)
     apa = apalache_inductive() if tier == "thorough" else {"status": "thorough tier only"}
+    tlaps = tlaps_proof() if tier == "thorough" else {"status": "thorough tier only"}
+    if tlaps.get("status") == "FAILED":
+        raise tlcrun.MachineryError(f"tlapm did not prove FVLifecycleIndProof: {tlaps}")
     if "FAILED" in apa.values():
         raise tlcrun.MachineryError(f"Apalache did not discharge the inductive invariant of FVLifecycleInd: {apa}")
     cov = {
         "states": res["distinct"] + sim["states"] + tr["states"], "transitions": res["states"] + sim["states"] + tr["states"],
         "traces_validated_against_impl": len(behs) + len(ebehs) + tr["traces"],
         "state_graph_edges_replayed": len(ebehs), "evaluations": judge.steps + tr["events"],
-        "recorded_traces": tr, "apalache_inductive_invariant": apa,
+        "recorded_traces": tr, "apalache_inductive_invariant": apa, "tlaps_proof_unbounded_pools": tlaps,
         "distinct_nontrivial": len({canon_hash([[r["name"], r["args"]] for r in b]) for b in behs if len(b) > 3}),
         "rule": "exhaustive: FVLifecycle with 3 variables, 3 BC objects, all histories to the depth of the tier over the "
                 "C09 alphabet (sharing allowed); simulated: behaviours over the full alphabet replayed step by step "
